@@ -220,6 +220,7 @@ Proof.
     destruct (has_rec s d1 || memN d1 (loc s) || (has_rec s d2 || memN d2 (loc s))); reflexivity.
 Qed.
 
+Opaque reaches.
 Lemma acyclic_step : forall s o, acyclic (chains s) -> acyclic (chains (exec s o)).
 Proof.
   intros s o A. destruct o; try (rewrite chains_step_other; [exact A | intros; discriminate]).
@@ -230,6 +231,7 @@ Proof.
   { apply existsb_exists. exists x. split; [exact Hx | apply reaches_adequate; [lia | exact C]]. }
   congruence.
 Qed.
+Transparent reaches.
 Lemma acyclic_reachable : forall h, acyclic (chains (run_hist h)).
 Proof.
   intro h. unfold run_hist. assert (G : forall s, acyclic (chains s) -> acyclic (chains (fold_left exec h s))).
@@ -268,4 +270,49 @@ Proof.
   intros l s d H. unfold obs, exists_flags, located, artifact_present, rec_path, has_ds, has_rec, ds_get, tags_of, calibs_of. simpl.
   f_equal. f_equal. f_equal. f_equal.
   apply memN_ext. rewrite filter_In, negb_true_iff, memN_false, filter_In, dedup_In, memN_In. tauto.
+Qed.
+
+Lemma standalone_trash_rolled_back_l : forall s l d, In d l -> In d (loc s) -> In d (trash s) -> step s (Trash l) = (s, Ok).
+Proof.
+  intros s l d H1 H2 H3. simpl. unfold ds_trash.
+  assert (E : existsb (fun d0 => memN d0 (loc s) && memN d0 (trash s)) l = true).
+  { apply existsb_exists. exists d. split; [exact H1 |]. apply andb_true_iff. split; apply memN_In; assumption. }
+  rewrite E. reflexivity.
+Qed.
+
+(* ---------- E. two-ref ingest: both datasets are stored and their records name ONE artifact ---------- *)
+Lemma memA_addA : forall p l, memA p (addA p l) = true.
+Proof. intros p l. unfold addA. destruct (memA p l) eqn:E; [exact E |]. simpl. assert (art_eqb p p = true) by (apply art_eqb_eq; reflexivity). rewrite H. reflexivity. Qed.
+
+Lemma hasK_add_row_mono : forall s d d' a rows, hasK d rows = true -> hasK d (add_row s d' a rows) = true.
+Proof. intros s d d' a rows H. unfold add_row. destruct (has_ds s d'); [exact H |]. unfold hasK in *. simpl. rewrite H. apply orb_true_r. Qed.
+Lemma hasK_add_row_self : forall s d a rows, (forall p, In p (ds s) -> In p rows) -> hasK d (add_row s d a rows) = true.
+Proof.
+  intros s d a rows Hincl. unfold add_row. destruct (has_ds s d) eqn:F.
+  - apply has_ds_In in F. destruct F as [p Hp]. apply hasK_In. exists p. apply Hincl. exact Hp.
+  - unfold hasK. simpl. rewrite N.eqb_refl. reflexivity.
+Qed.
+
+Lemma ingest_ok_l : forall s d1 d2 r k s', step s (Ingest d1 d2 r k) = (s', Ok) ->
+  d1 <> d2 /\ ctype s r = Some Run /\
+  has_rec s d1 = false /\ has_rec s d2 = false /\ ~ In d1 (loc s) /\ ~ In d2 (loc s) /\
+  rec_path s' d1 = Some (r, k) /\ rec_path s' d2 = Some (r, k) /\
+  exists_flags s' d1 = (true, true, true) /\ exists_flags s' d2 = (true, true, true) /\ located s' d1 = true /\ located s' d2 = true /\
+  colls s' = colls s /\ chains s' = chains s /\ tags s' = tags s /\ calibs s' = calibs s /\ trash s' = trash s.
+Proof.
+  intros s d1 d2 r k s' H. simpl in H. destruct (ctype s r) as [[] |] eqn:C; try discriminate.
+  destruct (d1 =? d2) eqn:E0; [discriminate |]. destruct (negb _); [discriminate |].
+  destruct (has_rec s d1 || memN d1 (loc s) || (has_rec s d2 || memN d2 (loc s))) eqn:E; [discriminate |].
+  apply orb_false_iff in E. destruct E as [E1 E2]. apply orb_false_iff in E1, E2. destruct E1 as [A1 B1]. destruct E2 as [A2 B2].
+  apply N.eqb_neq in E0. apply memN_false in B1, B2. inversion H. clear H.
+  assert (N21 : (d1 =? d2) = false) by (apply N.eqb_neq; congruence).
+  assert (M : memA (r, k) (addA (r, k) (files s)) = true) by apply memA_addA.
+  assert (D1 : hasK d1 (add_row s d1 (r, k) (add_row s d2 (r, sib k) (ds s))) = true).
+  { apply hasK_add_row_self. intros p Hp. unfold add_row. destruct (has_ds s d2); [exact Hp | right; exact Hp]. }
+  assert (D2 : hasK d2 (add_row s d1 (r, k) (add_row s d2 (r, sib k) (ds s))) = true).
+  { apply hasK_add_row_mono. apply hasK_add_row_self. intros p Hp. exact Hp. }
+  unfold exists_flags, located, artifact_present, rec_path, has_ds, has_rec. simpl. unfold hasK in D1, D2. rewrite D1, D2.
+  rewrite !N.eqb_refl, N21. simpl. rewrite M.
+  repeat split; try assumption; try reflexivity.
+  destruct (d2 =? d1); reflexivity.
 Qed.
